@@ -330,7 +330,22 @@ class Scope:
         return len(self.assigns.get(name, [])) + len(self.other_binds.get(name, [])) + (1 if name in self.params else 0)
 
     def single_def(self, name: str, allow_mutated: bool = False) -> Optional[ast.AST]:
-        if name in self.params or name in self.other_binds:
+        if name in self.params:
+            return None
+        if name in self.other_binds:
+            # `a, b = X` with X a pure attribute path / name: a is X[0], b is X[1]
+            ob = self.other_binds[name]
+            if len(ob) == 1 and name not in self.assigns and isinstance(ob[0], ast.Assign) and len(ob[0].targets) == 1 \
+                    and isinstance(ob[0].targets[0], (ast.Tuple, ast.List)) and (allow_mutated or name not in self.mutated):
+                tg = ob[0].targets[0]
+                v = ob[0].value
+                pure = v
+                while isinstance(pure, ast.Attribute):
+                    pure = pure.value
+                if isinstance(pure, ast.Name) and all(isinstance(e, ast.Name) for e in tg.elts) and not (isinstance(v, ast.Name) and v.id == name):
+                    idx = [i for i, e in enumerate(tg.elts) if e.id == name]
+                    if len(idx) == 1:
+                        return ast.copy_location(ast.Subscript(value=copy.deepcopy(v), slice=ast.Constant(value=idx[0]), ctx=ast.Load()), v)
             return None
         a = self.assigns.get(name, [])
         if len(a) != 1:
